@@ -258,6 +258,17 @@ func c11(r *rep.Run) {
 		hist := []string{"layout{" + l.key() + "}"}
 		c11EvalLayout(r, l, hist, false, &evals)
 		c11EvalLayout(r, l, hist, true, &evals)
+		// mixed: a, b, c registered under this layout, d bound but NOT registered
+		// (resolved by name next to registered variables)
+		{
+			l3 := c11layout{}
+			for k, v := range l {
+				if k != "d" {
+					l3[k] = v
+				}
+			}
+			c11EvalLayout(r, l3, []string{"layout{" + l3.key() + "} + d bound but unregistered"}, true, &evals)
+		}
 		if i%301 == 0 {
 			r.Sample(10, map[string]interface{}{"layout": l.key()})
 		}
@@ -691,6 +702,17 @@ func c11Types(r *rep.Run, n *int64) {
 // constructor: a variable evaluates to the value bound to its name.
 func c11SpecialNames(r *rep.Run, n *int64) {
 	names := []string{"True", "TRUE", "False", "FALSE", "tRuE", "T", "F", "nil", "fi", "DNE", "mod", "version", "in", "not", "x1", "_", "a.b", "名前", "slot.0", "geo.3d_x", "a.b.c", "x.y_1", "_x", "x_", "a1.b2", "q.2x"}
+	// identifiers whose UTF-8 encodings contain EVERY continuation byte value
+	// (0x80..0xBF as second byte of the Latin-1 letters U+00C0..U+00FF, among
+	// them 0x85 and 0xA0, which are white space when read as a code point) and
+	// a few three-byte letters with such bytes
+	for cp := rune(0xC0); cp <= 0xFF; cp++ {
+		if cp == 0xD7 || cp == 0xF7 {
+			continue // the multiplication and division signs are not letters
+		}
+		names = append(names, "x"+string(cp), string(cp)+"y")
+	}
+	names = append(names, "città", "Ångström", "价格", "你好", "x.qualità.y", "格", "ㅅa")
 	keys := []eval.VariableKey{-1, 0, 1, 7, 255, 256, 32767}
 	for _, name := range names {
 		for _, key := range keys {
